@@ -362,8 +362,8 @@ theorem heaps_stay_ordered (u : Update) (t : Inv) (h : HeapTree t) (he : u.enabl
   | removeQueued path idx =>
     obtain ⟨n, hn, hidx⟩ := he
     exact (removeQueued_spec idx path t n h hn hidx).1
-  | increment path now fresh => exact (rekey_spec _ (keyOnly_incr now fresh) path t h).1
-  | decrement path now last => exact (rekey_spec _ (keyOnly_decr now last) path t h).1
+  | increment path now fresh => exact (rekey_spec false _ (keyOnly_incr now fresh) path t h).1
+  | decrement path now last => exact (rekey_spec false _ (keyOnly_decr now last) path t h).1
   | park path w => exact (frame_spec _ _ (frame_park w) path t h).1
   | unpark path idx => exact (frame_spec _ _ (frame_unpark idx) path t h).1
   | create path k now => exact (heap_store_walk _ (heap_createLeaf k now) path t h).1
@@ -371,9 +371,9 @@ theorem heaps_stay_ordered (u : Update) (t : Inv) (h : HeapTree t) (he : u.enabl
 
 /-- The same for *any* change of the keys `executingWorkers`, `lastOperationStarted`,
 `lastOperationCompletion` along a path that is followed, level by level, by the two
-`heapMaybeFix` calls of the code. -/
-theorem heaps_stay_ordered_rekey (g : Inv → Inv) (hg : KeyOnly g) (path : List Nat) (t : Inv) (h : HeapTree t) :
-    HeapTree (rekey g path t) := (rekey_spec g hg path t h).1
+`heapMaybeFix` calls of the code (with or without the cache refresh of fix ca91fdf). -/
+theorem heaps_stay_ordered_rekey (legacyNoRefresh : Bool) (g : Inv → Inv) (hg : KeyOnly g) (path : List Nat) (t : Inv)
+    (h : HeapTree t) : HeapTree (rekey legacyNoRefresh g path t) := (rekey_spec legacyNoRefresh g hg path t h).1
 
 /-- The third heap: `idleSynchronizingWorkersChildrenHeap.Less` is not a strict weak order
 (`idleLess_not_strictWeak`), so no heap property is claimed for it.  What every update preserves,
@@ -384,8 +384,8 @@ theorem parked_children_stay_listed (u : Update) (t : Inv) (h : ParkedTree t) (h
   cases u with
   | enqueue path o => exact parked_enqueue o path t h
   | removeQueued path idx => exact parked_removeQueued idx path t h
-  | increment path now fresh => exact (rekey_parked _ (keyOnly_incr now fresh) path t h).1
-  | decrement path now last => exact (rekey_parked _ (keyOnly_decr now last) path t h).1
+  | increment path now fresh => exact (rekey_parked false _ (keyOnly_incr now fresh) path t h).1
+  | decrement path now last => exact (rekey_parked false _ (keyOnly_decr now last) path t h).1
   | park path w => exact (park_spec w path t h he).1
   | unpark path idx =>
     obtain ⟨n, hn, hidx⟩ := he
@@ -397,26 +397,34 @@ theorem parked_children_stay_listed (u : Update) (t : Inv) (h : ParkedTree t) (h
 theorem parkedTree_handoff_hypotheses (t : Inv) (h : ParkedTree t) : ParkedListed t ∧ ParkedSound t :=
   ⟨parkedListed_of_tree t h, parkedSound_of_tree t h⟩
 
-/-- `cached_priority`, the invariant: in every state, the `firstQueuedOperationPriority` of
-every invocation below the root is the priority of `queuedOperations[0]` when it has directly
-queued operations, and otherwise the cached priority of one of its queued children (so it is
-exact when there is a single queued child).  Executing-count changes reorder `queuedChildren`
-without refreshing the cache; that is all the slack there is. -/
-theorem cached_priority (u : Update) (t : Inv) (h : HeapTree t) (hc : CacheTree t) (he : u.enabled t) :
-    CacheTree (u.apply t) := by
+/-- `cached_priority`: with exact caches before, exact after, for *every* update function —
+`firstQueuedOperationPriority` of every invocation below the root is exactly what
+`updateFirstOperationPriority` would store now: the priority of `queuedOperations[0]`, else the
+cached priority of `queuedChildren[0]`.  (`enqueue` / `removeQueuedFromInvocation` refresh every
+invocation they pass; since fix ca91fdf `increment/decrementExecutingWorkersCount` refresh the
+parent right after re-sorting its `queuedChildren`; the other updates change neither the heads
+of the heaps nor the caches.) -/
+theorem cached_priority (u : Update) (t : Inv) (h : HeapTree t) (hc : ExactTree t) : ExactTree (u.apply t) := by
   cases u with
-  | enqueue path o => exact cache_enqueue o path t h he hc
-  | removeQueued path idx =>
-    obtain ⟨n, hn, hidx⟩ := he
-    exact cache_removeQueued idx path t n h hn hidx hc
-  | increment path now fresh => exact cache_rekey _ (keyOnly_incr now fresh) path t h hc
-  | decrement path now last => exact cache_rekey _ (keyOnly_decr now last) path t h hc
-  | park path w => exact cache_park w path t h hc
-  | unpark path idx => exact cache_unpark idx path t h hc
-  | create path k now => exact (cache_store_walk _ (cache_createLeaf k now) path t h hc).1
-  | removeIfEmpty path k => exact (cache_store_walk _ (cache_removeLeaf k) path t h hc).1
+  | enqueue path o => exact exact_enqueue o path t hc
+  | removeQueued path idx => exact exact_removeQueued idx path t hc
+  | increment path now fresh => exact (exact_rekey _ (keyOnly_incr now fresh) path t hc).1
+  | decrement path now last => exact (exact_rekey _ (keyOnly_decr now last) path t hc).1
+  | park path w => exact exact_park w path t h hc
+  | unpark path idx => exact exact_unpark idx path t h hc
+  | create path k now => exact exact_create k now path t h hc
+  | removeIfEmpty path k => exact exact_removeInvocation k path t h hc
 
-/-- `cached_priority`, the two exact cases spelled out. -/
+/-- … and with exact caches the cached priority of an invocation *is* the priority of the
+operation the walk (of a worker without stickiness) selects below it: the priority by which the
+parent orders it among its siblings is that of the operation it would hand out. -/
+theorem cached_priority_predicts_walk (win : Nat → Bool) (nlim fuel : Nat) (c : Inv) (lvl : Nat) (o : Op) (r : Nat)
+    (h : ExactTree c) (hp : pickAux win nlim fuel c [] lvl = some (o, r)) : o.prio = firstPrio c :=
+  exact_walk win nlim fuel c lvl o r h hp
+
+/-- Exact caches give the two cases of DESIGN.md literally: priority of `queuedOperations[0]` when
+there are directly queued operations, else the cached priority of a queued child (the only one,
+when there is one). -/
 theorem cached_priority_exact_cases (c : Inv) (h : cacheNode c) :
     (∀ o rest, c.ops = o :: rest → c.prio = o.prio) ∧
     (c.ops = [] → ∀ k, c.queued = [k] → ∃ g ∈ c.kids, g.key = k ∧ g.prio = c.prio) := by
@@ -429,21 +437,29 @@ theorem cached_priority_exact_cases (c : Inv) (h : cacheNode c) :
     · cases h
     · exact ⟨g, hg, by simpa using hgk, hgp⟩
 
-/-- `cached_priority`, at the refresh: `enqueue` and `removeQueuedFromInvocation` refresh the
-cache of every invocation they pass, bottom-up; when all caches were exact before
-(`c.prio = firstPrio c` for every invocation below the root: exactly what
-`updateFirstOperationPriority` would store), they all are afterwards … -/
-theorem cached_priority_refreshed (u : Update) (t : Inv) (h : ExactTree t)
-    (hu : (∃ path o, u = .enqueue path o) ∨ (∃ path idx, u = .removeQueued path idx)) : ExactTree (u.apply t) := by
-  rcases hu with ⟨path, o, rfl⟩ | ⟨path, idx, rfl⟩
-  · exact exact_enqueue o path t h
-  · exact exact_removeQueued idx path t h
+theorem cached_priority_weak_of_exact (t : Inv) (h : HeapTree t) (hc : ExactTree t) : CacheTree t :=
+  cacheTree_of_exact t h hc
 
-/-- … and with exact caches the cached priority of an invocation *is* the priority of the
-operation the walk (of a worker without stickiness) selects below it. -/
-theorem cached_priority_predicts_walk (win : Nat → Bool) (nlim fuel : Nat) (c : Inv) (lvl : Nat) (o : Op) (r : Nat)
-    (h : ExactTree c) (hp : pickAux win nlim fuel c [] lvl = some (o, r)) : o.prio = firstPrio c :=
-  exact_walk win nlim fuel c lvl o r h hp
+/-- The code before fix ca91fdf did not refresh the parent after an executing-count change: only
+the weaker invariant `CacheTree` (the cache is the cached priority of *some* queued child) is
+preserved … -/
+theorem cached_priority_legacy_weak (g : Inv → Inv) (hg : KeyOnly g) (path : List Nat) (t : Inv) (h : HeapTree t)
+    (hc : CacheTree t) : CacheTree (rekey true g path t) := cache_rekey_legacy g hg path t h hc
+
+/-- … and exactness is lost: in invocation `1`, child `2` (priority 50, nothing executing) is
+ahead of child `3` (priority 0, one worker); when the worker of `3` finishes, `3` moves to the
+front of `queuedChildren`, but the old code leaves the cached priority of `1` at 50, so `1`
+competes with its siblings as a priority-50 invocation although the operation it will hand out has
+priority 0.  The fixed code stores 0. -/
+theorem legacy_no_refresh_counterexample :
+    let t : Inv := .mk 0 [] [1] 0 1 0 [] [] 0
+      [.mk 1 [] [2, 3] 50 1 5 [] [] 0
+        [.mk 2 [⟨2, 50, 10, 5⟩] [] 50 0 1 [] [] 0 [], .mk 3 [⟨3, 0, 10, 6⟩] [] 0 1 5 [] [] 0 []]]
+    t.wf = true ∧
+    ((nodeAt (decrementExecutingWorkersCount true 9 (fun _ => true) [1, 3] t) [1]).map
+      fun c => (c.queued, c.prio, firstPrio c)) = some ([3, 2], 50, 0) ∧
+    ((nodeAt (decrementExecutingWorkersCount false 9 (fun _ => true) [1, 3] t) [1]).map
+      fun c => (c.queued, c.prio, firstPrio c)) = some ([3, 2], 0, 0) := by decide
 
 /-- The invariants along any sequence of enabled updates. -/
 theorem heaps_stay_ordered_all (us : List Update) : ∀ (t : Inv), HeapTree t → enabledAll us t →
@@ -484,20 +500,20 @@ theorem pick_refines_spec_from_empty (us : List Update) (w : WView) (he : enable
     (hp : pickFromQueue (applyAll us emptyRoot) w = some r) : r ∈ specPick (applyAll us emptyRoot) w :=
   pick_refines_spec_reachable us emptyRoot w (heapTree_emptyInv 0 0) he r hp
 
-/-- … every cache is within `cached_priority`'s bounds, and `idleSynchronizingWorkersChildren`
+/-- … every cache is exact, and `idleSynchronizingWorkersChildren`
 lists exactly the children with parked workers below them. -/
 theorem invariants_from_empty (us : List Update) (he : enabledAll us emptyRoot) :
-    HeapTree (applyAll us emptyRoot) ∧ CacheTree (applyAll us emptyRoot) ∧ ParkedTree (applyAll us emptyRoot) := by
-  have key : ∀ (us : List Update) (t : Inv), HeapTree t → CacheTree t → ParkedTree t → enabledAll us t →
-      HeapTree (applyAll us t) ∧ CacheTree (applyAll us t) ∧ ParkedTree (applyAll us t) := by
+    HeapTree (applyAll us emptyRoot) ∧ ExactTree (applyAll us emptyRoot) ∧ ParkedTree (applyAll us emptyRoot) := by
+  have key : ∀ (us : List Update) (t : Inv), HeapTree t → ExactTree t → ParkedTree t → enabledAll us t →
+      HeapTree (applyAll us t) ∧ ExactTree (applyAll us t) ∧ ParkedTree (applyAll us t) := by
     intro us
     induction us with
     | nil => intro t h1 h2 h3 _; exact ⟨h1, h2, h3⟩
     | cons u us ih =>
       intro t h1 h2 h3 he
-      exact ih (u.apply t) (heaps_stay_ordered u t h1 he.1) (cached_priority u t h1 h2 he.1)
+      exact ih (u.apply t) (heaps_stay_ordered u t h1 he.1) (cached_priority u t h1 h2)
         (parked_children_stay_listed u t h3 he.1) he.2
-  exact key us emptyRoot (heapTree_emptyInv 0 0) (cacheTree_emptyInv 0 0) (parkedTree_emptyInv 0 0) he
+  exact key us emptyRoot (heapTree_emptyInv 0 0) (exactTree_emptyInv 0 0) (parkedTree_emptyInv 0 0) he
 
 -- non-vacuity: a tree built from the empty root
 example : (applyAll [.create [] 1 5, .create [1] 3 5, .create [1] 2 6, .enqueue [1, 3] ⟨1, 0, 10, 5⟩,
